@@ -537,49 +537,67 @@ func (cx *Ctx) checkIssuerComposition(r *Report) {
 	fwd := `ext:httpforwarded.ParseParameter("host")#0[]`
 	n := 0
 	for _, c := range w.callsTo(vf.scope, func(c ssa.CallInstruction) bool { return calleeOf(c) == di }) {
-		n++
 		args := c.Common().Args
-		key := "derived-issuer:composition@" + w.InstrPos(c)
-		hostL := vf.Labels(args[0]).leaves()
-		pathL := vf.Labels(args[1]).leaves()
-		bad := ""
-		fromFwd, fromHost := false, false
-		for _, l := range hostL {
-			switch {
-			case l == fwd:
-				fromFwd = true
-			case strings.HasSuffix(l, "/#0.Host"):
-				fromHost = true
-			case l == "const:" || l == "const:zero":
-			default:
-				bad = "the host position of dynamicIssuer receives " + l
-			}
+		// the host may be chosen before a single call (`host := r.Host; if h, ok := forwarded(); ok { host = h }`): each
+		// alternative is judged with what holds where it is chosen
+		type hostAlt struct {
+			val   ssa.Value
+			atoms []Atom
+			tag   string
 		}
-		for _, l := range pathL {
-			if l != "param:provider.issuerFromForwardedOrHost/#0" {
-				bad = "the path position of dynamicIssuer receives " + l + " instead of the configured path"
-			}
-		}
-		// which host on which path: the forwarded one only where hostFromForwarded reported one, the request's only where it did not
-		found, notFound := false, false
-		for _, a := range fx.AtomsAt(c.(ssa.Instruction)) {
-			if strings.Contains(a.A, "hostFromForwarded#1") || strings.Contains(a.String(), "hostFromForwarded") {
-				if a.Neg {
-					notFound = true
-				} else {
-					found = true
+		alts := []hostAlt{{args[0], fx.AtomsAt(c.(ssa.Instruction)), ""}}
+		if phi, isPhi := args[0].(*ssa.Phi); isPhi {
+			alts = nil
+			for j, e := range phi.Edges {
+				if j < len(phi.Block().Preds) {
+					alts = append(alts, hostAlt{e, fx.AtomsOnEdge(phi.Block().Preds[j], phi.Block()), fmt.Sprintf("/%d", j)})
 				}
 			}
 		}
-		if bad == "" && fromFwd && !found {
-			bad = "a forwarded host is used on a path that has not found hostFromForwarded to report one"
+		pathL := vf.Labels(args[1]).leaves()
+		for _, alt := range alts {
+			n++
+			key := "derived-issuer:composition@" + w.InstrPos(c) + alt.tag
+			hostL := vf.Labels(alt.val).leaves()
+			bad := ""
+			fromFwd, fromHost := false, false
+			for _, l := range hostL {
+				switch {
+				case l == fwd:
+					fromFwd = true
+				case strings.HasSuffix(l, "/#0.Host"):
+					fromHost = true
+				case l == "const:" || l == "const:zero":
+				default:
+					bad = "the host position of dynamicIssuer receives " + l
+				}
+			}
+			for _, l := range pathL {
+				if l != "param:provider.issuerFromForwardedOrHost/#0" {
+					bad = "the path position of dynamicIssuer receives " + l + " instead of the configured path"
+				}
+			}
+			// which host on which path: the forwarded one only where hostFromForwarded reported one, the request's only where it did not
+			found, notFound := false, false
+			for _, a := range alt.atoms {
+				if strings.Contains(a.A, "hostFromForwarded#1") || strings.Contains(a.String(), "hostFromForwarded") {
+					if a.Neg {
+						notFound = true
+					} else {
+						found = true
+					}
+				}
+			}
+			if bad == "" && fromFwd && !found {
+				bad = "a forwarded host is used on a path that has not found hostFromForwarded to report one"
+			}
+			if bad == "" && fromHost && !fromFwd && !notFound {
+				bad = "the request's Host is used on a path that has not found the forwarding headers empty: a forwarded host that is present is ignored"
+			}
+			r.Check(bad == "", "R-VFG", key, w.InstrPos(c), "host in the host position (forwarded if found, else the request's), configured path in the path position", bad)
 		}
-		if bad == "" && fromHost && !fromFwd && !notFound {
-			bad = "the request's Host is used on a path that has not found the forwarding headers empty: a forwarded host that is present is ignored"
-		}
-		r.Check(bad == "", "R-VFG", key, w.InstrPos(c), "host in the host position (forwarded if found, else the request's), configured path in the path position", bad)
 	}
-	r.Check(n >= 2, "R-VFG", "derived-issuer:composition#sites", "", fmt.Sprintf("%d dynamicIssuer call sites", n), fmt.Sprintf("only %d dynamicIssuer call sites (one for a forwarded host, one for the request's Host expected)", n))
+	r.Check(n >= 2, "R-VFG", "derived-issuer:composition#sites", "", fmt.Sprintf("%d host alternatives at the dynamicIssuer call sites", n), fmt.Sprintf("only %d host alternative(s) at the dynamicIssuer call sites (one for a forwarded host, one for the request's Host expected)", n))
 	// the custom header option stores what it is given
 	if wo := w.Func("provider.WithIssuerFromCustomHeaders"); wo != nil {
 		ovf := cx.newVFlow("custom-headers", wo)
